@@ -354,3 +354,61 @@ Proof.
             && ((if neg then (- v)%Z else v) <=? 9223372036854775807)%Z) eqn:E; [ | discriminate ].
   intros H. inversion H; subst. apply andb_true_iff in E as [E1 E2]. lia.
 Qed.
+
+(* ------------------------------------------------------------------ list-modules *)
+Lemma bytes_leb_total a b : bytes_leb a b = true \/ bytes_leb b a = true.
+Proof.
+  revert b. induction a as [|x a IH]; intros [|y b]; cbn [bytes_leb]; auto.
+  destruct (x <? y) eqn:E1; destruct (y <? x) eqn:E2; auto; try lia.
+Qed.
+
+Inductive SortedB : list bytes -> Prop :=
+| SB_nil : SortedB []
+| SB_one : forall x, SortedB [x]
+| SB_cons : forall x y l, bytes_leb x y = true -> SortedB (y :: l) -> SortedB (x :: y :: l).
+
+Lemma insert_sorted_perm x l : Permutation (insert_sorted x l) (x :: l).
+Proof.
+  induction l as [|y l IH]; cbn [insert_sorted]; [ reflexivity | ].
+  destruct (bytes_leb x y); [ reflexivity | ]. rewrite IH. apply perm_swap.
+Qed.
+
+Lemma insert_sorted_sorted x l : SortedB l -> SortedB (insert_sorted x l).
+Proof.
+  induction 1 as [| y | y z l Hyz Hs IH]; cbn [insert_sorted].
+  - constructor.
+  - destruct (bytes_leb x y) eqn:E; [ now repeat constructor | ].
+    destruct (bytes_leb_total x y) as [H | H]; [ congruence | ]. now repeat constructor.
+  - destruct (bytes_leb x y) eqn:E; [ now repeat constructor | ].
+    destruct (bytes_leb_total x y) as [H | H]; [ congruence | ].
+    cbn [insert_sorted] in IH. destruct (bytes_leb x z) eqn:E2.
+    + now repeat constructor.
+    + constructor; auto.
+Qed.
+
+(* `list-modules` prints the library's module names, each once, in ascending byte order *)
+Theorem list_modules_sorted_perm : forall available,
+  Permutation (list_modules available) available /\ SortedB (list_modules available).
+Proof.
+  induction available as [|x l [IHp IHs]]; cbn [list_modules fold_right]; [ split; constructor | ].
+  split; [ rewrite insert_sorted_perm; now constructor | now apply insert_sorted_sorted ].
+Qed.
+
+(* yr: an error unless at least one rules argument and a target are given, and exactly one with -C *)
+Theorem from_yr_args_ok : forall load positional,
+  from_yr_args false load positional <> YrError <->
+  (2 <= length positional)%nat /\ (load = true -> length positional = 2%nat).
+Proof.
+  intros load positional. unfold from_yr_args.
+  destruct (length positional <? 2)%nat eqn:E.
+  - apply Nat.ltb_lt in E. split; [ congruence | intros [H _]; lia ].
+  - apply Nat.ltb_ge in E. destruct load.
+    + destruct positional as [|a [|b [|c rest]]]; cbn in E; try lia.
+      * cbn. split; [ intros _; split; auto | congruence ].
+      * assert (Hr : exists r1 r2 rs, removelast (a :: b :: c :: rest) = r1 :: r2 :: rs).
+        { cbn [removelast]. destruct rest as [|d rest']; [ exists a, b, []; reflexivity | ].
+          exists a, b, (removelast (c :: d :: rest')). reflexivity. }
+        destruct Hr as (r1 & r2 & rs & ->). split; [ congruence | ].
+        intros [_ H]. specialize (H eq_refl). cbn in H. lia.
+    + split; [ intros _; split; [ exact E | discriminate ] | congruence ].
+Qed.
